@@ -239,7 +239,7 @@ func mkClause(text, loc string) (Clause, error) {
 
 var clauseKw = map[string]bool{"props": true, "requires": true, "ensures": true, "modifies": true, "pure": true, "loop": true, "decreases": true,
 	"names": true, "assumed": true, "trusted": true, "noinline": true, "entry": true, "func": true, "dep": true, "spec": true, "lemma": true,
-	"ghost": true, "uses": true, "interface": true, "purepkg": true, "panics": true, "view": true, "pool": true}
+	"ghost": true, "uses": true, "streamalias": true, "interface": true, "purepkg": true, "panics": true, "view": true, "pool": true}
 
 // parseContractLines parses logical contract lines. pkgRel is the package the file belongs to ("" for spec files).
 func (w *World) parseContractLines(lines []string, locs []string, pkgRel string, assumed bool) error {
@@ -301,6 +301,13 @@ func (w *World) parseContractLines(lines []string, locs []string, pkgRel string,
 			}
 			w.pools[g] = f[2]
 			w.poolPkg[g] = pkgRel
+			cur = nil
+		case "streamalias":
+			// streamalias *pkg.T field.field: the ghost stream of a T is that of the reader object reached through the path
+			if len(f) != 3 {
+				return fmt.Errorf("%s: bad streamalias declaration", loc)
+			}
+			w.streamAlias = append(w.streamAlias, streamAliasDecl{typ: f[1], path: strings.Split(f[2], ".")})
 			cur = nil
 		case "purepkg":
 			for _, p := range strings.Fields(rest) {
